@@ -33,14 +33,109 @@ OPTION_KEYS = {
 }
 
 # the documented vocabulary (docs/*-linter.md), not read from the code
-FN_ATTRS_TEST = ["#[test]", "#[tokio::test]", '#[tokio::test(flavor = "multi_thread")]']
+FN_ATTRS_TEST = ["#[test]", "#[tokio::test]", '#[tokio::test(flavor = "multi_thread")]', "#[async_std::test]", "#[actix_rt::test]",
+                 '#[tokio::test(flavor = "multi_thread", worker_threads = 2)]']
 FN_ATTRS_CFG_TEST = ["#[cfg(test)]", '#[cfg(all(test, feature = "slow"))]']  # a function compiled under cfg(test) only
 FN_ATTRS_OTHER = ["#[cfg(not(test))]", "#[cfg(any(test, debug_assertions))]", '#[cfg(feature = "testing")]',
                   "#[allow(clippy::tests_outside_test_module)]", '#[doc = "helpers for cfg(test) builds"]',
-                  "#[inline]", "#[allow(dead_code)]", "#[should_panic]", "#[ignore]", "#[must_use]"]
+                  "#[inline]", "#[allow(dead_code)]", "#[should_panic]", "#[ignore]", "#[must_use]",
+                  "#[cfg_attr(test, allow(unused))]", "#[attested]", '#[cfg(feature = "test-utils")]', '#[doc = "runs the \\"test\\" suite"]',
+                  '#[cfg(target_os = "linux")]']
 MOD_ATTRS_TEST = ["#[cfg(test)]", '#[cfg(all(test, feature = "slow"))]']
 MOD_ATTRS_OTHER = ["#[cfg(not(test))]", "#[cfg(any(test, debug_assertions))]", '#[cfg(feature = "testing")]',
-                   "#[allow(clippy::tests_outside_test_module)]", '#[doc = "helpers for cfg(test) builds"]', "#[allow(dead_code)]"]
+                   "#[allow(clippy::tests_outside_test_module)]", '#[doc = "helpers for cfg(test) builds"]', "#[allow(dead_code)]",
+                   "#[cfg_attr(test, allow(unused))]", '#[cfg(feature = "test-utils")]', '#[doc = "see cfg(test) \\" below"]']
+CFG_ATOMS = ["unix", "windows", "debug_assertions", 'feature = "slow"', 'feature = "testing"', 'target_os = "linux"']
+
+
+# ---- cfg predicates: generated structurally; (text, value with test false, value with test true) in Kleene's logic
+# (True / False / None = unknown).  Used to steer the generator and for the input distribution only, never for judging:
+# the verdict on an attribute is computed inside Coq from its text (Model/RustSafetySpec.v::attr_is_cfg_test).
+def _k_all(vs):
+    return False if any(v is False for v in vs) else (True if all(v is True for v in vs) else None)
+
+
+def _k_any(vs):
+    return True if any(v is True for v in vs) else (False if all(v is False for v in vs) else None)
+
+
+def gen_pred(r, depth):
+    x = r.random()
+    if depth <= 0 or x < 0.45:
+        if r.random() < 0.5:
+            return "test", False, True
+        return r.choice(CFG_ATOMS), None, None
+    sep = r.choice([", ", ", ", ", ", ","])
+    if x < 0.65:
+        t, a, b = gen_pred(r, depth - 1)
+        return f"not({t})", (None if a is None else not a), (None if b is None else not b)
+    subs = [gen_pred(r, depth - 1) for _ in range(r.choice([0, 1, 2, 2, 3]))]
+    text = sep.join(t for t, _, _ in subs)
+    if x < 0.85:
+        return f"all({text})", _k_all([a for _, a, _ in subs]), _k_all([b for _, _, b in subs])
+    return f"any({text})", _k_any([a for _, a, _ in subs]), _k_any([b for _, _, b in subs])
+
+
+def cfg_attr_text(r, pred):
+    pad = r.choice(["", "", "", "", " "])
+    return f"#[cfg({pad}{pred}{pad})]"
+
+
+def gen_cfg_attr(r, want_test_only):
+    """a #[cfg(..)] attribute with a generated predicate; with want_test_only one that can only hold in a test build"""
+    for _ in range(12):
+        t, a, b = gen_pred(r, r.choice([1, 2, 2, 3]))
+        only = a is False and b is not False
+        if want_test_only is None or only == want_test_only:
+            return cfg_attr_text(r, t)
+    return "#[cfg(test)]" if want_test_only else "#[cfg(not(test))]"
+
+
+def _attr_tokens(text):
+    import re
+    return re.findall(r'"(?:[^"\\]|\\.)*"|[A-Za-z_][A-Za-z0-9_]*|::|\S', text)
+
+
+def attr_sem(text):
+    """(marks a test function, test-only configuration) - a Python reading of the attribute for the distribution only"""
+    toks = _attr_tokens(text)
+    if toks[:2] != ["#", "["] or toks[-1:] != ["]"]:
+        return False, False
+    m = toks[2:-1]
+    i = 0
+    while i + 2 < len(m) and m[i + 1] == "::":
+        i += 2
+    tf = bool(m) and m[i] == "test" and (i + 1 == len(m) or m[i + 1] == "(")
+    ct = False
+    if m[:2] == ["cfg", "("] and m[-1:] == [")"]:
+        try:
+            v, rest = _parse_pred(m[2:-1])
+            ct = (not rest) and v[0] is False and v[1] is not False
+        except (IndexError, ValueError):
+            ct = False
+    return tf, ct
+
+
+def _parse_pred(ts):
+    if len(ts) >= 2 and ts[1] == "(" and ts[0] in ("all", "any", "not"):
+        op, rest, vs = ts[0], ts[2:], []
+        while rest[0] != ")":
+            v, rest = _parse_pred(rest)
+            vs.append(v)
+            if rest[0] == ",":
+                rest = rest[1:]
+        rest = rest[1:]
+        if op == "not":
+            if len(vs) != 1:
+                raise ValueError
+            return tuple(None if x is None else not x for x in vs[0]), rest
+        f = _k_all if op == "all" else _k_any
+        return (f([a for a, _ in vs]), f([b for _, b in vs])), rest
+    if len(ts) >= 3 and ts[1] == "=":
+        return (None, None), ts[3:]
+    return ((False, True) if ts[0] == "test" else (None, None)), ts[1:]
+
+
 FS_FUNCTIONS = ["read_to_string", "read", "write", "create_dir", "create_dir_all", "remove_file", "remove_dir", "remove_dir_all",
                 "rename", "copy", "metadata", "read_dir", "canonicalize", "read_link"]
 NET_TYPES = ["TcpStream", "TcpListener", "UdpSocket"]
@@ -245,15 +340,32 @@ class Gen:
     # ---- items
     def pre(self, on_fn: bool, want_test: bool | None = None):
         r = self.r
-        test = (FN_ATTRS_TEST * 3 + FN_ATTRS_CFG_TEST) if on_fn else MOD_ATTRS_TEST
-        other = FN_ATTRS_OTHER if on_fn else MOD_ATTRS_OTHER
         out = []
         if want_test is None:
             want_test = r.random() < 0.4
         if r.random() < 0.12:
             out.append(["C", r.choice(["// helper", "/// Documented item", "// see tests"])])
+
+        def test_attr():
+            if on_fn and r.random() < 0.7:
+                return r.choice(FN_ATTRS_TEST)
+            x = r.random()
+            if x < 0.35:
+                return "#[cfg(test)]"
+            if x < 0.5:
+                return r.choice(MOD_ATTRS_TEST)
+            return gen_cfg_attr(r, True)
+
+        def other_attr():
+            x = r.random()
+            if x < 0.6:
+                return r.choice(FN_ATTRS_OTHER if on_fn else MOD_ATTRS_OTHER)
+            if x < 0.9:
+                return gen_cfg_attr(r, False)
+            return gen_cfg_attr(r, None)
+
         n_other = r.choice([0, 0, 0, 1, 1, 2])
-        attrs = ([r.choice(test)] if want_test else []) + [r.choice(other) for _ in range(n_other)]
+        attrs = ([test_attr()] if want_test else []) + [other_attr() for _ in range(n_other)]
         r.shuffle(attrs)
         for a in attrs:
             out.append(["A", a])
@@ -314,6 +426,13 @@ def gen_configs(r):
                 c[l] = sec
         runs.append(c)
     one_off = {l: {r.choice(OPTION_KEYS[l][1:]): False} for l in LINTERS}
+    # the documented `enabled` key: one linter switched off (the other two as in one_off), sometimes spelled out as true
+    off = r.choice(LINTERS)
+    for l in LINTERS:
+        if l == off and r.random() < 0.5:
+            one_off[l] = dict(one_off[l], enabled=False)
+        elif r.random() < 0.15:
+            one_off[l] = dict(one_off[l], enabled=True)
     runs.append(one_off)
     return runs
 
@@ -744,10 +863,13 @@ def features(items, acc=None, ctx=()):
         here = ctx
         if t in ("Fn", "Mod"):
             texts = [p[1] for p in k[1] if p[0] == "A"]
-            if any(a in FN_ATTRS_TEST + MOD_ATTRS_TEST + FN_ATTRS_CFG_TEST for a in texts):
+            sems = [attr_sem(a) for a in texts]
+            if any((tf and t == "Fn") or ct for tf, ct in sems):
                 here = here + ("test",)
                 acc.add("ctx:test-item")
-            if any(a in FN_ATTRS_OTHER + MOD_ATTRS_OTHER and "test" in a for a in texts):
+            if any(ct and a not in MOD_ATTRS_TEST for a, (tf, ct) in zip(texts, sems)):
+                acc.add("ctx:generated-test-only-cfg")
+            if any(not ((tf and t == "Fn") or ct) and "test" in a for a, (tf, ct) in zip(texts, sems)):
                 acc.add("ctx:lookalike-attr")
             if any(p[0] == "C" for p in k[1]):
                 acc.add("ctx:comment-among-attrs")
@@ -828,22 +950,24 @@ def run(tier: str, seed: int, replay: str | None = None) -> int:
     chk = Check(PROP, tier, seed)
     _known_from_dir(chk)
     chk.rule = ("seeded random Rust files: 1-4 top-level items (functions sync/async, modules nested up to 3 deep, impl blocks) carrying "
-                "0-3 attributes from the documented vocabulary (#[test], #[tokio::test], #[cfg(test)], look-alikes such as #[cfg(not(test))], "
-                "comments among attributes); bodies of let / expression statements, for / while / loop, if, match, blocks, closures, nested "
+                "0-3 attributes: the documented vocabulary (#[test], #[tokio::test], #[cfg(test)]), look-alikes such as #[cfg(not(test))] or "
+                "#[cfg_attr(test, ..)], and #[cfg(P)] with generated predicates P (all / any / not over test, unix, feature = \"..\", ... , "
+                "varying spacing), comments among attributes; bodies of let / expression statements, for / while / loop, if, match, blocks, closures, nested "
                 "functions, macro invocations, with planted .unwrap() / .expect() / .clone() calls (chains, multi-line chains, clones bound by "
                 "let with and without later uses) and path calls from the documented std::fs / thread::sleep / std::net vocabulary plus near "
                 "misses, inside and outside spawn_blocking-style wrappers; each file is linted under 5 option settings (defaults, strict, two "
-                "random assignments of allow_in_tests / allow_expect / detect_*, one detect_* off per linter) through the in-process "
+                "random assignments of allow_in_tests / allow_expect / detect_*, one detect_* off per linter and in half of the files one linter with enabled: false) through the in-process "
                 "Orchestrator (a fraction through the three CLI commands with --config <file> --format json, three settings each); a case is non-trivial when the file has a "
                 "risky call inside an exempting or qualifying context (test item, loop, let, async fn, wrapper, macro) and the implementation "
                 "reports something under some setting; distinct = distinct abstract file")
     chk.trusted_base.append("node_type / push_m (Model/RustSafety.v) and idents (Model/RustSafetyTypes.v): the shape of tree-sitter-rust's parse tree "
                             "(node types, which nodes are ancestors of which, identifier tokens, start points of call expressions) is a parser "
                             "oracle, validated by this correspondence; the renderer harness/props/c17.py ties abstract files to Rust text")
-    chk.trusted_base.append("`used afterwards` is the documented textual rule (the identifier appears in a later statement of the enclosing "
-                            "block); identifier tokens inside attribute texts (cfg, test, ...) and fn parameters are not modelled - the generator's "
-                            "variable names are disjoint from them; method-form wrappers (rt.spawn_blocking(|| ..)) are outside the generated domain")
-    chk.trusted_base.append("attribute semantics is specified on the finite catalogue Model/RustSafetySpec.v::attr_catalogue; option loading "
+    chk.trusted_base.append("`used afterwards` is the documented textual rule (an identifier token of that name appears in a later statement of "
+                            "the enclosing block, including binders, closure parameters and the identifier tokens of attributes of nested "
+                            "items); variable shadowing is not resolved; fn parameters are outside the generated domain")
+    chk.trusted_base.append("attribute semantics is computed from the attribute text inside Coq (Model/RustSafetySpec.v: tokeniser, path, cfg "
+                            "predicate in Kleene logic); that reading of Rust's attribute grammar is part of the specification; option loading "
                             "(section lookup, enabled, ignore patterns) belongs to C05 and is exercised here only through the key spelling that works")
     chk.build(["theories/Props/C17.v"], ["RustSafetyGen"], known_v=["theories/Props/C17Known.v"])
     scale = chk.budget_scale()
